@@ -12,7 +12,7 @@ PLAN = dict(
                            "except that the refused EncodeTextString call itself must not have written anything"],
     runs=[
         dict(name="exh", run="^(TestExhaustiveInts|TestCorpus)$"),
-        dict(name="tree", run="^TestPropTree$", checks=(20000, 25000), shards=(1, 8)),
+        dict(name="tree", run="^TestPropTree$", checks=(20000, 125000), shards=(1, 16)),
     ],
     technique="rapid-generated value trees driven through the encoder API in permuted caller orders, differential against an independent RFC 8949 decoder and deterministic-encoding judge; exhaustive head-size boundaries with exact expected bytes",
     level_text=("Random value trees (depth <= 5, maps with mixed-type keys in permuted caller orders, duplicate keys, invalid UTF-8) checked "
